@@ -76,6 +76,9 @@ def ps1(chk, files, rule="PS-1", extra_exceptions=None):
 _FAM = poolsib.Family(POOLS)
 
 
+FN_NAMES = set()
+
+
 def name_tag(name):
     if not name:
         return None
@@ -105,6 +108,8 @@ def origin_tags(body, o, depth=0, acc=None):
     elif k == "call":
         last = o[1].rsplit("::", 1)[-1]
         t = name_tag(last)
+        if t and FN_NAMES and not any(_FAM.rename(last, t, u) in FN_NAMES for u in POOLS if u != t):
+            t = None     # a pool-named helper with no sibling for another pool serves them all
         if t:
             acc.add(t)
         # a tagged callee decides; otherwise look at its arguments
@@ -135,6 +140,8 @@ def ps3(chk, w, in_scope, rule="PS-3", min_tagged_params=2):
     `min_tagged_params` pool-tagged parameter names: the pool tag of each argument must equal the
     tag of the parameter it is bound to"""
     n = 0
+    if not FN_NAMES:
+        FN_NAMES.update(g.p.rsplit("::", 1)[-1] for g in w.fns.values() if not g.is_closure())
     for f in sorted(w.fns.values(), key=lambda f: f.p):
         if not in_scope(f):
             continue
